@@ -284,7 +284,11 @@ def eligible(view, info, aname, ranks):
     flags = info.flags_before.get(aname)
     if flags is None or aname not in view.cell.apps:
         return False
-    if flags['blacklisted'] or flags['renew']:
+    if flags['blacklisted']:
+        return False
+    if flags['renew'] and view.decl_apps[aname]['lease']:
+        # a requested lease renewal may fail; without a lease there is
+        # nothing that can fail
         return False
     if ranks.get(aname) == UNPLACED or aname not in ranks:
         return False
@@ -369,7 +373,11 @@ def c08(view, info):
                         'model state %s) at %s' % (
                             aname, bsrv, t_hi, ret, state.value, info.c0))
         elif state is scheduler.State.frozen:
-            if not flags['unschedule'] and asrv != bsrv:
+            marked = flags['unschedule']
+            if hasattr(view, 'marked'):
+                # ground truth: named in a freeze request while on this server
+                marked = (bsrv, aname) in view.marked
+            if not marked and asrv != bsrv:
                 raise Violation(
                     'c08.frozen-moved',
                     '%s left frozen server %s (now %r) without being '
